@@ -24,13 +24,28 @@ class ScenarioDef:
         self.doc = doc
 
 
-def scenario(prop, targets, configs=None, bounded=None, name=None):
-    """register a contract scenario for property `prop` on repo functions `targets`"""
+def scenario(prop, targets, configs=None, bounded=None, name=None, history=None):
+    """register a contract scenario for property `prop` on repo functions `targets`.
+    history: None | True | "light" | list of configs | ("light", configs): also register the history variant
+    (second_use) of the scenario -- the objects the body makes through Session.once are used a second time"""
     if isinstance(targets, str):
         targets = [targets]
 
     def deco(fn):
         REGISTRY.append(ScenarioDef(prop, name or fn.__name__, fn, targets, configs, bounded, fn.__doc__ or ""))
+        if history:
+            light, hc = False, configs
+            h = history
+            if isinstance(h, tuple):
+                light, hc = h[0] == "light", h[1]
+            elif h == "light":
+                light = True
+            elif isinstance(h, list):
+                hc = h
+            g = second_use(fn, light=light)
+            if name:
+                g.__name__ = name + "_and_again_on_the_same_object"
+            REGISTRY.append(ScenarioDef(prop, g.__name__, g, targets, hc, bounded, g.__doc__ or ""))
         return fn
 
     return deco
@@ -292,13 +307,65 @@ class Session:
         self.I, self.sdef, self.cfg = interp, sdef, cfg
         self.prefix = f"{sdef.prop}/{sdef.name}" + (f"[{cfg}]" if cfg is not None else "")
         interp.ctx.ghost["prefix"] = self.prefix
+        # history rounds: a scenario body can be run again on the SAME objects (see second_use); inputs created in a
+        # later round get their own names (= are independent of the first round's inputs), obligations their own labels
+        self.round = ""
+        self.shared_objs = {}
+        self.shared_count = {}
 
     # ---- symbolic inputs (preconditions)
     @property
     def ctx(self):
         return self.I.ctx
 
+    def begin_round(self, tag):
+        self.round = tag
+        self.shared_count = {}
+
+    def shared(self, key, make):
+        """the n-th request for `key` in a later round returns what the n-th request of the first round made
+        (within one round every request makes a new object)"""
+        n = self.shared_count.get(key, 0)
+        self.shared_count[key] = n + 1
+        if (key, n) not in self.shared_objs:
+            self.shared_objs[(key, n)] = make()
+        return self.shared_objs[(key, n)]
+
+    def quiet(self, single_path=False):
+        """context: a stretch of execution whose obligations are NOT demanded here (a history prefix, or the run of a
+        fresh reference object whose obligations are those of the plain scenario)"""
+        S = self
+
+        class _Q:
+            def __enter__(self):
+                self.old = (S.ctx.mute, S.I.no_fork)
+                S.ctx.mute = True
+                S.I.no_fork = S.I.no_fork or single_path
+
+            def __exit__(self, *a):
+                S.ctx.mute, S.I.no_fork = self.old
+                return False
+
+        return _Q()
+
+    def same_tensor(self, label, a, b):
+        """obligations: the two tensors have the same shape and the same entries"""
+        a, b = lift(a), lift(b)
+        ok = a.rank == b.rank and all(x.same(y) or self.ctx.entails(x.size_term() == y.size_term()) for x, y in zip(a.shape, b.shape)) and a.dtype == b.dtype
+        self.ensure(f"{label}:same-shape", ok)
+        if ok:
+            self.forall(f"{label}:same-entries", a, lambda q: a.at(q) == b.at(q))
+
+    def once(self, make):
+        """the object under contract: made in the first round, the same object in the later rounds of a history
+        scenario (requests are matched by their order)"""
+        return self.shared("once", make)
+
+    def _nm(self, name):
+        return f"{name}@{self.round}" if self.round else name
+
     def int(self, name, lo=None, hi=None):
+        name = self._nm(name)
         s = Sym(z3.Int(name), "int")
         if lo is not None:
             self.ctx.assume(s.t >= lo)
@@ -308,6 +375,7 @@ class Session:
         return s
 
     def real(self, name, lo=None, hi=None):
+        name = self._nm(name)
         s = Sym(z3.Real(name), "float")
         if lo is not None:
             self.ctx.assume(s.t >= lo)
@@ -317,6 +385,7 @@ class Session:
         return s
 
     def bool(self, name):
+        name = self._nm(name)
         s = Sym(z3.Bool(name), "bool")
         self.ctx.ghost.setdefault("inputs", {})[name] = s.t
         return s
@@ -336,6 +405,7 @@ class Session:
         so a cell that the code under contract updates in place would silently change the meaning of every
         pre-state term: unless `mutable`, the runner emits a frame obligation that the cell still holds its
         original value at the end of every path."""
+        name = self._nm(name)
         dims = [core.dim_of(s) for s in shape]
         rng = core.SORTS[dtype]()
         arity = sum(len(d.factors) for d in dims)
@@ -356,7 +426,7 @@ class Session:
 
     # ---- repo access
     def find(self, qualname):
-        return self.I.repo.find(qualname)
+        return self.I.resolve_lazy(self.I.repo.find(qualname), None)
 
     def new(self, qualname, *args, **kwargs):
         cls = self.find(qualname)
@@ -461,7 +531,7 @@ class Session:
         if rp is not None:
             meta = {"replay": rp}
             self._next_replay = None
-        self.ctx.oblige(f"{self.prefix}/{kind}:{label}", goal, hyps, kind, meta)
+        self.ctx.oblige(f"{self.prefix}/{kind}:{self.round + ':' if self.round else ''}{label}", goal, hyps, kind, meta)
 
     def lemma(self, label, goal, hyps=()):
         """prove `hyps => goal` as its own obligation, then use it (hint for nonlinear arithmetic)"""
@@ -569,13 +639,36 @@ class Session:
             cond = zbool(cond)
         if isinstance(cond, bool):
             cond = z3.BoolVal(cond)
-        self.ctx.oblige(f"{self.prefix}/cover:{label}", cond, (), "cover")
+        self.ctx.oblige(f"{self.prefix}/cover:{self.round + ':' if self.round else ''}{label}", cond, (), "cover")
 
     def canary(self, label, goal, hyps=()):
         """an obligation that MUST NOT be provable (engine soundness canary)"""
         if isinstance(goal, Sym):
             goal = zbool(goal)
         self.ctx.oblige(f"{self.prefix}/canary:{label}", goal, hyps, "canary")
+
+
+def second_use(fn, light=False, suffix="_and_again_on_the_same_object"):
+    """history variant of a scenario body: the body runs, then runs again in the same session.  Whatever the body
+    obtains through Session.shared (the object under contract) is the SAME object in the second round; every input
+    the body draws is a NEW independent symbol.  All postconditions are demanded again, so an object that remembers
+    anything from its first use (memoised boxes, normals, counts, in-place updated stored tensors) fails them.
+    light: the first round is only a history prefix -- its obligations (those of the plain scenario, proved there)
+    are not repeated and it is followed along one of its paths only (its inputs restricted to that path)."""
+
+    def g(S):
+        if light:
+            S.ctx.mute, S.I.no_fork = True, True
+        try:
+            fn(S)
+        finally:
+            S.ctx.mute, S.I.no_fork = False, False
+        S.begin_round("again")
+        fn(S)
+
+    g.__name__ = fn.__name__ + suffix
+    g.__doc__ = (fn.__doc__ or "") + " -- history: asked a second time on the same object with independent inputs, every postcondition again" + ("; the first use along one of its paths" if light else "")
+    return g
 
 
 # ----------------------------------------------------------------------------- loop contracts
